@@ -553,6 +553,20 @@ func (w *World) Receive(p *Party, wm *WireMsg) M {
 	return w.record(ev, p, cr, w.emit(p, out), err)
 }
 
+// InjectRaw puts a raw message from p's peer (or an outsider) into p's queue.
+func (w *World) InjectRaw(p *Party, raw ...[]byte) *WireMsg {
+	wm := &WireMsg{ID: len(w.Wire) + 1, From: p.Peer, To: p.Name, Raw: raw}
+	wm.Abs = w.Abs(raw, p.Peer, p.Name)
+	if hr, ok := wm.Abs["hashraw"].([]byte); ok {
+		wm.HashRaw = hr
+		delete(wm.Abs, "hashraw")
+	}
+	wm.Abs["id"] = wm.ID
+	w.Wire = append(w.Wire, wm)
+	p.Queue = append(p.Queue, wm)
+	return wm
+}
+
 // Deliver delivers the head of p's queue (FIFO). Returns nil if empty.
 func (w *World) Deliver(p *Party) M {
 	if len(p.Queue) == 0 {
